@@ -166,6 +166,19 @@ class Executor:
         self.npaths = 0
         self._ordinals: Dict[int, str] = {}
 
+    def is_virtual(self, meth: str) -> bool:
+        if self.ctx is None:
+            return False
+        k = ('virt', meth)
+        if k not in self._ordinals:
+            v = False
+            for c in self.repo.all_classes():
+                if c is not self.ctx and self.ctx in c.mro() and meth in c.methods:
+                    v = True
+                    break
+            self._ordinals[k] = v
+        return self._ordinals[k]
+
     def ordinal(self, fctx: FuncInfo, node) -> str:
         """stable name of a loop / handler: <function>.<pre-order index among the
         loops and handlers of that function> (no line numbers: a reference
@@ -390,7 +403,7 @@ class Executor:
             it, pre_iter, ex = alts[0]
             if ex:
                 return [(it, ex)]
-        self._havoc(it, s.body, fctx, oid)
+        self._havoc(it, s.body, fctx, oid, loop=s)
         after = it.fork()
         iter_state = it.fork()
         iter_state.lits = []
@@ -411,8 +424,17 @@ class Executor:
             target = tstr
             starts = [iter_state]
         paths = []
+        carried = it.counters.get('__carried__%s' % oid, [])
         for s0 in starts:
             for s2, ex in self.exec_block(s.body, s0, fctx):
+                if ex[0] in ('fall', 'continue', 'break'):
+                    # what the iteration hands to the next one / to the code after the loop
+                    for nm, sym in carried:
+                        v = s2.locals.get(nm)
+                        if v is not None:
+                            vt = term(v)
+                            if vt != sym and not (isinstance(s, ast.For) and nm in _names_in_target(s.target)):
+                                s2.effects.append(Effect('write', target=sym, value=vt, lineno=ln, epoch=s2.epoch))
                 p = self._mkpath(s2, ex if ex[0] != 'fall' else ('fall',))
                 paths.append(p)
         region = Region('while' if isinstance(s, ast.While) else 'for', header, paths, ln, target, has_break)
@@ -437,7 +459,7 @@ class Executor:
                 else [(after, ('fall',))]
         return outs
 
-    def _havoc(self, st: State, body, fctx, ln):
+    def _havoc(self, st: State, body, fctx, ln, loop=None):
         order: List[str] = []
 
         def pre(x):
@@ -460,9 +482,16 @@ class Executor:
                 pre(c)
         for n in body:
             pre(n)
-        for i, nm in enumerate(order):
+        carried = []
+        live = [nm for nm in order if loop is not None and _live_in(loop, nm, fctx.node)]
+        rest = [nm for nm in order if nm not in live]
+        for i, nm in enumerate(live):
             # loop-carried local: named by position, not by the programmer's identifier
             st.locals[nm] = name('@L%sv%d' % (ln, i + 1))
+            carried.append((nm, '@L%sv%d' % (ln, i + 1)))
+        for i, nm in enumerate(rest):
+            st.locals[nm] = name('@L%st%d' % (ln, i + 1))
+        st.counters['__carried__%s' % ln] = carried
         # heap: drop everything a write or a call in the body may change
         writes = block_writes(body)
         for k in list(st.heap):
@@ -1043,6 +1072,16 @@ class _Ev:
                 if bc is not None:
                     return self.effect_call(bc, name(bc), [name('self')] + args, kwargs, st, ln)
                 target = x.ctx.lookup(meth)
+                if target is not None and x.is_virtual(meth):
+                    # overridden in a subclass of the context class: dynamic dispatch, do not
+                    # inline the base body; the call may change any field of self
+                    out = self.effect_call('self.' + meth, ast.Attribute(value=recv, attr=meth, ctx=ast.Load()),
+                                           args, kwargs, st, ln)
+                    for s2, _v, _e in out:
+                        for k in list(s2.heap):
+                            if k.startswith('self.'):
+                                del s2.heap[k]
+                    return out
                 if target is not None and meth not in x.opts.no_inline:
                     if target.is_generator():
                         # generator construction: a pure term; the effect happens where it is spawned
@@ -1221,6 +1260,43 @@ def _names_in_target(t) -> List[str]:
     if isinstance(t, ast.Starred):
         return _names_in_target(t.value)
     return []
+
+
+def _live_in(loop, nm: str, fn) -> bool:
+    """is local `nm` carried from one iteration to the next (or out of the loop)?
+    first occurrence in test+body (source order) is a read, or it is read after the loop"""
+    occ = []
+    nodes = []
+    if isinstance(loop, ast.While):
+        nodes.append(loop.test)
+    nodes.extend(loop.body)
+    for top in nodes:
+        for n in ast.walk(top):
+            if isinstance(n, ast.Name) and n.id == nm:
+                occ.append((n.lineno, n.col_offset, isinstance(n.ctx, ast.Load)))
+            elif isinstance(n, ast.AugAssign) and isinstance(n.target, ast.Name) and n.target.id == nm:
+                occ.append((n.lineno, -1, True))
+    if occ:
+        occ.sort()
+        # an assignment `x = f(x)` reads first although the target comes first textually
+        first = occ[0]
+        same_stmt_reads = [o for o in occ if o[0] == first[0] and o[2]]
+        if first[2] or (same_stmt_reads and not first[2] and _reads_in_value_first(nodes, nm, first[0])):
+            return True
+    end = getattr(loop, 'end_lineno', loop.lineno)
+    for n in ast.walk(fn):
+        if isinstance(n, ast.Name) and n.id == nm and isinstance(n.ctx, ast.Load) and n.lineno > end:
+            return True
+    return False
+
+
+def _reads_in_value_first(nodes, nm, lineno) -> bool:
+    for top in nodes:
+        for n in ast.walk(top):
+            if isinstance(n, ast.Assign) and n.lineno == lineno:
+                if any(isinstance(m, ast.Name) and m.id == nm and isinstance(m.ctx, ast.Load) for m in ast.walk(n.value)):
+                    return True
+    return False
 
 
 def _has_break(body) -> bool:
